@@ -3,10 +3,12 @@ package main
 import (
 	"fmt"
 	"os"
+	"os/signal"
 	"path/filepath"
 	"strings"
 	"sync"
 	"sync/atomic"
+	"syscall"
 	"time"
 
 	"github.com/RoaringBitmap/roaring"
@@ -197,6 +199,7 @@ func runLruConc(rep *Report, r *Rng, goroutines, rounds int) {
 }
 
 func runC04(rep *Report, r *Rng, tier string) {
+	defer reportServerStartCrashes(rep, "C04")
 	rep.Rule = "N in {2,4,16} goroutines x overlapping queries (shared sub-expressions from a small leaf pool, grouped and ungrouped) x cache {none, LRU tiny, LRU ample} x {on-demand, preloaded}, plus concurrent GetSchema and concurrent LRUCache Get/Put; the binary is built with -race; every result compared with the model's sequential answer; race reports are parsed from the race detector log; thorough adds concurrent gRPC clients against a -race build of the server; non-trivial = every configuration; distinct by (dataset, cache, getter, goroutines)"
 	raceEnabledNote(rep)
 	o := StartOracle()
@@ -545,6 +548,7 @@ func runC18(rep *Report, r *Rng, tier string) {
 		}
 	}
 	runParallelWriters(rep, tier)
+	faultyTempCommit(rep, "C18")
 	reportRaces(rep, "C18", last)
 	rep.OracleCalls = o.n
 }
@@ -699,4 +703,120 @@ func runParallelWriters(rep *Report, tier string) {
 func init() {
 	runners["C04"] = runC04
 	runners["C18"] = runC18
+}
+
+// faultyTempCommit: the big writer's temporary database hits a transient I/O fault (the file may not grow for a moment:
+// RLIMIT_FSIZE, as a full volume or a quota would do) while several goroutines add rows; the fault is lifted as soon as
+// one AddRow reports it and the load goes on. Whatever the writer does then — refuse everything, or carry on — an
+// index it finally publishes must contain every row whose AddRow returned an id and no error.
+func faultyTempCommit(rep *Report, prop string) {
+	path := scratch("c18-fault.updog")
+	os.Remove(path)
+	os.Remove(path + ".tmp")
+	defer os.Remove(path)
+	defer os.Remove(path + ".tmp")
+	db, err := bbolt.Open(path, 0644, boltOpts)
+	if err != nil {
+		infra("bolt: %v", err)
+	}
+	tdb, err := bbolt.Open(path+".tmp", 0600, boltOpts)
+	if err != nil {
+		infra("bolt: %v", err)
+	}
+	w, err := updog.NewBigIndexWriter(db, tdb)
+	if err != nil {
+		infra("big writer: %v", err)
+	}
+	var lim syscall.Rlimit
+	if err := syscall.Getrlimit(syscall.RLIMIT_FSIZE, &lim); err != nil {
+		rep.Note("faulty-temp-commit skipped: %v", err)
+		return
+	}
+	signal.Ignore(syscall.SIGXFSZ)
+	defer signal.Reset(syscall.SIGXFSZ)
+	restore := func() { syscall.Setrlimit(syscall.RLIMIT_FSIZE, &lim) }
+	defer restore()
+	const goroutines, per = 4, 1500
+	acked := make([][]string, goroutines)
+	var added, faults atomic.Int64
+	var limited atomic.Bool
+	res := watchdog(120*time.Second, func() string {
+		var wg sync.WaitGroup
+		for g := 0; g < goroutines; g++ {
+			wg.Add(1)
+			go func(g int) {
+				defer wg.Done()
+				for k := 0; k < per; k++ {
+					if added.Add(1) == 1200 {
+						if st, err := os.Stat(path + ".tmp"); err == nil {
+							low := syscall.Rlimit{Cur: uint64(st.Size()), Max: lim.Max}
+							if syscall.Setrlimit(syscall.RLIMIT_FSIZE, &low) == nil {
+								limited.Store(true)
+							}
+						}
+					}
+					tag := fmt.Sprintf("g%d-row-%05d", g, k)
+					ok := func() (ok bool) {
+						defer func() {
+							if recover() != nil {
+								ok = false // the writer is beyond use after the fault: nothing is acknowledged
+							}
+						}()
+						_, err := w.AddRow(map[string]string{"tag": tag, "grp": fmt.Sprint(k % 5)})
+						return err == nil
+					}()
+					if ok {
+						acked[g] = append(acked[g], tag)
+					} else if limited.Load() {
+						faults.Add(1)
+						restore() // the operator frees space; the load continues
+					}
+				}
+			}(g)
+		}
+		wg.Wait()
+		restore()
+		ferr := func() (err error) {
+			defer func() {
+				if p := recover(); p != nil {
+					err = fmt.Errorf("panic: %v", p)
+				}
+			}()
+			return w.Flush()
+		}()
+		if ferr != nil {
+			return "flush-refused"
+		}
+		return "published"
+	})
+	func() { defer func() { recover() }(); w.Close() }()
+	tdb.Close()
+	db.Close()
+	rep.Eval("faulty-temp-commit", true)
+	rep.Count("faulty-temp-commit:" + strings.SplitN(res, ":", 2)[0])
+	rep.Note("faulty-temp-commit: limited=%v faults seen by AddRow=%d outcome=%s", limited.Load(), faults.Load(), res)
+	if res != "published" || faults.Load() == 0 {
+		return // nothing was published (or no fault could be injected): nothing to check
+	}
+	c := map[string]any{"scenario": "RLIMIT_FSIZE on the big writer's temp database after 1200 rows", "goroutines": goroutines, "rows_each": per}
+	idx, _, err := openIdx(path, false, -1)
+	if err != nil {
+		return // published but rejected when opened: nothing wrong is answered
+	}
+	defer idx.Close()
+	missing, first, total := 0, "", 0
+	for g := range acked {
+		for _, tag := range acked[g] {
+			total++
+			if got := safeExecute(idx, &updog.Query{Expr: &updog.ExprEqual{Column: "tag", Value: tag}}); got != "ok 1" {
+				missing++
+				if first == "" {
+					first = tag + " -> " + got
+				}
+			}
+		}
+	}
+	if missing > 0 {
+		rep.Violate(Violation{Kind: "fault", Signature: prop + ":acknowledged-rows-lost", What: fmt.Sprintf("after a transient I/O fault on the temp database Flush published an index, but %d of the %d rows whose AddRow returned an id and no error are not in it exactly once (first: %s); %d AddRow call(s) saw an error", missing, total, first, faults.Load()), Expected: "every acknowledged row present, or nothing published", Actual: first, Case: c})
+	}
 }
